@@ -12,7 +12,7 @@ import XlModel.Generated.FactsC17
 no theme index).
 
 `Impl` part 2 (grid): `prepareSheetXML`, `fillColumns`, `makeContiguousColumns`,
-`prepareCellStyle`, `GetCellStyle`, `SetCellStyle`, `SetRowStyle`, `SetColStyle`/`setColStyle`/
+`prepareCellStyle`, `GetCellStyle` (`getCell`, read-only), `SetCellStyle`, `SetRowStyle`, `SetColStyle`/`setColStyle`/
 `flatCols`, `GetColStyle`, the `c.S = prepareCellStyle(..)` step of every cell setter.
 
 `Spec`: `normalize` (what `GetStyle (NewStyle s)` must be) and the three total maps
@@ -339,16 +339,18 @@ def isLangNumFmt (id : Int) : Bool := inRanges id Facts.C17.langRanges
 
 def numFmtList (r : Reg) : List XNumFmt := match r.numFmts with | some (l, _) => l | none => []
 
-/-- styles.go `getNumFmtID`; `none` = -1 -/
-def getNumFmtID (r : Reg) (s : Style) : Option Nat :=
-  if (builtIn s.numFmt).isSome then some s.numFmt.toNat
-  else if inRanges s.numFmt Facts.C17.getNumFmtRanges then some s.numFmt.toNat
+/-- styles.go `getNumFmtID`: the id as Go's `int` — `-1` "does not exist" (read as General by the xf
+lookup), `Facts.C17.currencyUnregisteredId` for a currency format whose code is not stored yet (matches
+no xf: the index of a currency format is never compared with stored numFmtIds) -/
+def getNumFmtID (r : Reg) (s : Style) : Int :=
+  if (builtIn s.numFmt).isSome then s.numFmt
+  else if inRanges s.numFmt Facts.C17.getNumFmtRanges then s.numFmt
   else match currency s.numFmt with
     | some code =>
       match (numFmtList r).find? (·.code == code) with
-      | some nf => some nf.id
-      | none => some s.numFmt.toNat
-    | none => none
+      | some nf => (nf.id : Int)
+      | none => Facts.C17.currencyUnregisteredId
+    | none => -1
 
 /-- styles.go `getCustomNumFmtID` -/
 def getCustomNumFmtID (r : Reg) (c : Str) : Option Nat :=
@@ -395,29 +397,34 @@ def newNumFmt (r : Reg) (s : Style) : Except Err (Reg × Nat) :=
 def offOrAbsent (b : Option Bool) : Bool := b != some true
 def zeroOrAbsent (i : Option Nat) : Bool := i == none || i == some 0
 
-def xfNumFmt (numFmtID : Option Nat) (xf : Xf) (s : Style) : Bool :=
-  if s.customNumFmt.isNone ∧ numFmtID.isNone then xf.numFmtId == some 0
+def xfNumFmt (numFmtID : Int) (xf : Xf) (s : Style) : Bool :=
+  if s.customNumFmt.isNone ∧ numFmtID = -1 then xf.numFmtId == some 0
   else if s.negRed || (match s.decimalPlaces with | some d => d != 2 | none => false) then false
-  else match numFmtID with
-    | some n => xf.numFmtId == some n
-    | none => false
+  else if numFmtID < 0 then false
+  else xf.numFmtId == some numFmtID.toNat
+
+/-- styles.go `xfApplied`: the apply flag if present, otherwise only the default component (id 0) applies -/
+def xfApplied (id : Nat) (apply : Option Bool) : Bool :=
+  match apply with
+  | some b => b
+  | none => id == 0
 
 def xfFont (fontID : Option Nat) (xf : Xf) (s : Style) : Bool :=
   if s.font.isNone then zeroOrAbsent xf.fontId && offOrAbsent xf.applyFont
   else match fontID with
-    | some n => xf.fontId == some n && xf.applyFont == some true
+    | some n => xf.fontId == some n && xfApplied n xf.applyFont
     | none => false
 
 def xfFill (fillID : Option Nat) (xf : Xf) (s : Style) : Bool :=
   if s.fill.typ = [] then zeroOrAbsent xf.fillId && offOrAbsent xf.applyFill
   else match fillID with
-    | some n => xf.fillId == some n && xf.applyFill == some true
+    | some n => xf.fillId == some n && xfApplied n xf.applyFill
     | none => false
 
 def xfBorder (borderID : Option Nat) (xf : Xf) (s : Style) : Bool :=
   if s.border = [] then zeroOrAbsent xf.borderId && offOrAbsent xf.applyBorder
   else match borderID with
-    | some n => xf.borderId == some n && xf.applyBorder == some true
+    | some n => xf.borderId == some n && xfApplied n xf.applyBorder
     | none => false
 
 def xfAlignment (xf : Xf) (s : Style) : Bool :=
@@ -430,7 +437,7 @@ def xfProtection (xf : Xf) (s : Style) : Bool :=
   | none => offOrAbsent xf.applyProtection
   | some p => xf.protection == some p && xf.applyProtection == some true
 
-def xfMatches (numFmtID fontID fillID borderID : Option Nat) (s : Style) (xf : Xf) : Bool :=
+def xfMatches (numFmtID : Int) (fontID fillID borderID : Option Nat) (s : Style) (xf : Xf) : Bool :=
   xfNumFmt numFmtID xf s && xfFont fontID xf s && xfFill fillID xf s && xfBorder borderID xf s &&
   xfAlignment xf s && xfProtection xf s
 
@@ -442,8 +449,8 @@ def getStyleID (r : Reg) (s : Style) : Except Err (Option Nat × Style) :=
   match getFontID r s with
   | .error e => .error e
   | .ok (fontID, s') =>
-    let numFmtID := match s.customNumFmt with
-      | some c => getCustomNumFmtID r c
+    let numFmtID : Int := match s.customNumFmt with
+      | some c => (match getCustomNumFmtID r c with | some n => (n : Int) | none => -1)
       | none => numFmtID0
     .ok (r.xfs.findIdx? (xfMatches numFmtID fontID fillID borderID s'), s')
 
@@ -562,19 +569,14 @@ def extractBorders (b : XBorder) : List Border :=
   (if b.up then extractLine "diagonalUp".toList b.diagonal else []) ++
   (if b.down then extractLine "diagonalDown".toList b.diagonal else [])
 
-/-- first preset variant whose non-stop attributes equal those of variant `sh` -/
+/-- first preset variant with the attributes and the number of stops of variant `sh` -/
 def readShading (sh : Nat) : Int :=
   match Facts.C17.fillVariants[sh]? with
   | none => 0
-  | some (key, _, _) =>
-    match Facts.C17.fillVariants.findIdx? (fun v => v.1 == key) with
+  | some (key, _, n) =>
+    match Facts.C17.fillVariants.findIdx? (fun v => v.1 == key && v.2.2 == n) with
     | some i => (i : Int)
     | none => 0
-
-def variantStops (sh : Nat) : Nat :=
-  match Facts.C17.fillVariants[sh]? with
-  | some (_, _, n) => n
-  | none => 2
 
 /-- styles.go `extractFills` -/
 def extractFills (x : XFill) : Fill :=
@@ -584,9 +586,8 @@ def extractFills (x : XFill) : Fill :=
     ⟨"pattern".toList, idxOfFold Facts.C17.styleFillPatterns p,
       (match fg with | some c => [themeColor c] | none => []), 0⟩
   | .gradient sh c0 c1 =>
-    ⟨"gradient".toList, 0,
-      (if variantStops sh = 3 then [themeColor c0, themeColor c1, themeColor c0] else [themeColor c0, themeColor c1]),
-      readShading sh⟩
+    -- a three-stop preset variant repeats the first colour in its last stop; that stop is not reported
+    ⟨"gradient".toList, 0, [themeColor c0, themeColor c1], readShading sh⟩
 
 /-- styles.go `extractFont` -/
 def extractFont (x : XFont) : Font :=
@@ -700,10 +701,10 @@ def cellS (g : Grid) (col row : Nat) : Nat :=
   | some r => (r.cells[col - 1]?).getD 0
   | none => 0
 
-/-- styles.go `GetCellStyle` (valid coordinates, `col,row ≥ 1`): grows the grid, then resolves -/
-def getCellStyle (g : Grid) (col row : Nat) : Grid × Nat :=
-  let g' := prepareSheetXML g col row
-  (g', prepareCellStyle g' col row (cellS g' col row))
+/-- styles.go `GetCellStyle` (valid coordinates, `col,row ≥ 1`): read-only — `getCell` returns the
+stored cell or nil (style 0) without creating rows or cells, then `prepareCellStyle` resolves -/
+def getCellStyle (g : Grid) (col row : Nat) : Nat :=
+  prepareCellStyle g col row (cellS g col row)
 
 /-- the style step of every cell setter: `prepareCell` then `c.S = prepareCellStyle(col,row,c.S)` -/
 def writeCell (g : Grid) (col row : Nat) : Grid :=
